@@ -40,7 +40,7 @@ theorem nodup_subset_full : ∀ (a b : List PStr), a.Nodup → a ⊆ b → b.len
 
 /-! ### lookup in association lists -/
 
-theorem lookup_none_iff (k : PStr) (l : List (PStr × AVal)) : l.lookup k = none ↔ k ∉ l.map Prod.fst := by
+theorem lookup_none_iff {β : Type} (k : PStr) (l : List (PStr × β)) : l.lookup k = none ↔ k ∉ l.map Prod.fst := by
   induction l with
   | nil => simp
   | cons kv r ih =>
@@ -51,7 +51,7 @@ theorem lookup_none_iff (k : PStr) (l : List (PStr × AVal)) : l.lookup k = none
     · have : (k == k') = false := by simpa using h
       simp [this, ih, h]
 
-theorem lookup_some_mem {k : PStr} {v : AVal} {l : List (PStr × AVal)} (h : l.lookup k = some v) : (k, v) ∈ l := by
+theorem lookup_some_mem {β : Type} {k : PStr} {v : β} {l : List (PStr × β)} (h : l.lookup k = some v) : (k, v) ∈ l := by
   induction l with
   | nil => simp at h
   | cons kv r ih =>
@@ -65,7 +65,7 @@ theorem lookup_some_mem {k : PStr} {v : AVal} {l : List (PStr × AVal)} (h : l.l
       simp only [this] at h
       exact List.mem_cons_of_mem _ (ih h)
 
-theorem mem_lookup_of_nodup {k : PStr} {v : AVal} : ∀ {l : List (PStr × AVal)}, (l.map Prod.fst).Nodup → (k, v) ∈ l →
+theorem mem_lookup_of_nodup {β : Type} {k : PStr} {v : β} : ∀ {l : List (PStr × β)}, (l.map Prod.fst).Nodup → (k, v) ∈ l →
     l.lookup k = some v
   | [], _, h => by simp at h
   | (k', w) :: r, hn, h => by
@@ -80,9 +80,9 @@ theorem mem_lookup_of_nodup {k : PStr} {v : AVal} : ∀ {l : List (PStr × AVal)
       exact mem_lookup_of_nodup hn.2 h
 
 theorem valEq_iff (v w : AVal) : valEq v w = true ↔ v.val = w.val := by
-  cases v <;> cases w <;> simp [valEq, AVal.val]
+  cases v <;> cases w <;> simp [valEq, AVal.val, numOf] <;> (try split) <;> (try split) <;> simp_all <;> omega
 
-theorem mem_keys_iff (k : PStr) (l : List (PStr × AVal)) : k ∈ l.map Prod.fst ↔ attrMap l k ≠ none := by
+theorem mem_keys_iff (k : PStr) (l : Attrs) : k ∈ l.map Prod.fst ↔ attrMap l k ≠ none := by
   have := lookup_none_iff k l
   simp only [attrMap, ne_eq, Option.map_eq_none_iff]
   constructor
@@ -91,7 +91,7 @@ theorem mem_keys_iff (k : PStr) (l : List (PStr × AVal)) : k ∈ l.map Prod.fst
     exact Classical.byContradiction fun hk => h (this.mpr hk)
 
 /-- `dict.__eq__` on two dicts = equality of the finite maps -/
-theorem dictEq_iff (a b : List (PStr × AVal)) (ha : (a.map Prod.fst).Nodup) (hb : (b.map Prod.fst).Nodup) :
+theorem dictEq_iff (a b : Attrs) (ha : (a.map Prod.fst).Nodup) (hb : (b.map Prod.fst).Nodup) :
     dictEq a b = true ↔ attrMap a = attrMap b := by
   constructor
   · intro h
@@ -120,7 +120,7 @@ theorem dictEq_iff (a b : List (PStr × AVal)) (ha : (a.map Prod.fst).Nodup) (hb
       | none => simp [hl'] at this
       | some w =>
         simp only [hl'] at this
-        simp [attrMap, hl, hl', (valEq_iff v w).mp this]
+        simp [attrMap, hl, hl', (valEq_iff v.2 w.2).mp this]
   · intro h
     have hkeys : ∀ k, k ∈ a.map Prod.fst ↔ k ∈ b.map Prod.fst := by
       intro k; rw [mem_keys_iff, mem_keys_iff, h]
@@ -272,10 +272,10 @@ theorem below_size {a x : Node} (h : Below a x) : sizeN x < sizeN a := by
 
 /-! ### attribute order -/
 
-theorem perm_keys_nodup {a b : List (PStr × AVal)} (p : a.Perm b) (h : (a.map Prod.fst).Nodup) :
+theorem perm_keys_nodup {β : Type} {a b : List (PStr × β)} (p : a.Perm b) (h : (a.map Prod.fst).Nodup) :
     (b.map Prod.fst).Nodup := (p.map Prod.fst).nodup_iff.mp h
 
-theorem perm_lookup {a b : List (PStr × AVal)} (p : a.Perm b) : (a.map Prod.fst).Nodup → ∀ k, a.lookup k = b.lookup k := by
+theorem perm_lookup {β : Type} {a b : List (PStr × β)} (p : a.Perm b) : (a.map Prod.fst).Nodup → ∀ k, a.lookup k = b.lookup k := by
   induction p with
   | nil => intros; rfl
   | cons x _ ih =>
@@ -301,64 +301,8 @@ theorem perm_lookup {a b : List (PStr × AVal)} (p : a.Perm b) : (a.map Prod.fst
     intro hn k
     rw [ih1 hn k, ih2 (perm_keys_nodup p1 hn) k]
 
-theorem attrMap_perm {a b : List (PStr × AVal)} (p : a.Perm b) (h : (a.map Prod.fst).Nodup) : attrMap a = attrMap b := by
+theorem attrMap_perm {a b : Attrs} (p : a.Perm b) (h : (a.map Prod.fst).Nodup) : attrMap a = attrMap b := by
   funext k
   simp [attrMap, perm_lookup p h k]
-
-/-! ### a copy has the same normal form -/
-
-theorem lookup_copyAttrs (n : Nat) (l : List (PStr × AVal)) (k : PStr) :
-    ((copyAttrs n l).1.lookup k).map AVal.val = (l.lookup k).map AVal.val := by
-  induction l generalizing n with
-  | nil => simp [copyAttrs]
-  | cons kv r ih =>
-    obtain ⟨k', v⟩ := kv
-    cases v with
-    | str s =>
-      simp only [copyAttrs, List.lookup_cons]
-      cases (k == k') <;> simp [ih n]
-    | list lid c items =>
-      simp only [copyAttrs, List.lookup_cons]
-      cases (k == k') <;> simp [ih (n + 1), AVal.val]
-
-theorem keys_copyAttrs (n : Nat) (l : List (PStr × AVal)) : (copyAttrs n l).1.map Prod.fst = l.map Prod.fst := by
-  induction l generalizing n with
-  | nil => simp [copyAttrs]
-  | cons kv r ih =>
-    obtain ⟨k', v⟩ := kv
-    cases v <;> simp [copyAttrs, ih]
-
-mutual
-theorem canon_copySpec : ∀ (t : Node) (inh : Option Bool) (n : Nat), canon (copySpec inh n t).1 = canon t
-  | .str i c v, inh, n => by simp [copySpec, canon]
-  | .tag i d ks, inh, n => by
-    simp only [copySpec, canon]
-    rw [canonL_copySpecL ks]
-    have : attrMap (copySelf n d (isXml inh d)).2.1.attrs = attrMap d.attrs := by
-      funext k
-      simp [attrMap, copySelf, lookup_copyAttrs]
-    rw [this]
-    simp [copySelf]
-theorem canonL_copySpecL : ∀ (ks : List Node) (inh : Option Bool) (n : Nat), canonL (copySpecL inh n ks).1 = canonL ks
-  | [], inh, n => by simp [copySpecL, canonL]
-  | k :: ks, inh, n => by
-    simp only [copySpecL, canonL]
-    rw [canon_copySpec k, canonL_copySpecL ks]
-end
-
-mutual
-theorem dictOK_copySpec : ∀ (t : Node) (inh : Option Bool) (n : Nat), DictOK t → DictOK (copySpec inh n t).1
-  | .str i c v, inh, n, _ => by simp [copySpec, DictOK]
-  | .tag i d ks, inh, n, h => by
-    simp only [DictOK] at h
-    simp only [copySpec, DictOK]
-    exact ⟨by simpa [copySelf, keys_copyAttrs] using h.1, dictOKL_copySpecL ks _ _ h.2⟩
-theorem dictOKL_copySpecL : ∀ (ks : List Node) (inh : Option Bool) (n : Nat), DictOKL ks → DictOKL (copySpecL inh n ks).1
-  | [], inh, n, _ => by simp [copySpecL, DictOKL]
-  | k :: ks, inh, n, h => by
-    simp only [DictOKL] at h
-    simp only [copySpecL, DictOKL]
-    exact ⟨dictOK_copySpec k _ _ h.1, dictOKL_copySpecL ks _ _ h.2⟩
-end
 
 end BS.Copy
